@@ -3,7 +3,7 @@ flush/close (FL1, FL2), info sector (IS1-IS3), DK1, TS1."""
 from .framework import rule
 from .ev import (all_guards, guarded, g_call, g_cmp, g_try_ok, try_inner, product, Bad, decode_edge)
 from .mir import tstr, callee_of, path_matches, is_log_call, strip_refs, subterms, tmatch, find_sub, strip_generics
-from .fsmodel import (VM, VMD, FATVOL, call_matches, CACHE_LOADS, CACHE_MUTATORS, FAT_MUTATORS, err_returns, ok_returns, table_of_term)
+from .fsmodel import (is_cluster_const, VM, VMD, FATVOL, call_matches, CACHE_LOADS, CACHE_MUTATORS, FAT_MUTATORS, err_returns, ok_returns, table_of_term)
 from .dataflow import roots, root_calls, derives_from_call, var_def_terms
 from .rules_guard import has_sub, last_field, is_variant
 
@@ -356,9 +356,9 @@ def _update_fat_calls(fn):
             cl = fn.term_of_operand(t["args"][2], b)
             val = fn.term_of_operand(t["args"][3], b)
             kind = "link"
-            if val[0] == "c" and val[2] and val[2].endswith("ClusterId::END_OF_FILE"):
+            if is_cluster_const(None, val, "END_OF_FILE"):
                 kind = "EOF"
-            elif val[0] == "c" and val[2] and val[2].endswith("ClusterId::EMPTY"):
+            elif is_cluster_const(None, val, "EMPTY"):
                 kind = "EMPTY"
             elif val[0] == "c":
                 kind = "const:%s" % val[1]
@@ -769,9 +769,9 @@ def ft7(F, R):
                         return e
                     if call_matches(t, ("FatVolume::update_fat",)):
                         val = f.term_of_operand(t["args"][3], b)
-                        if val[0] == "c" and val[2] and val[2].endswith("ClusterId::EMPTY"):
+                        if is_cluster_const(None, val, "EMPTY"):
                             return ("free", f.loc(b))
-                        if val[0] == "c" and val[2] and val[2].endswith("ClusterId::END_OF_FILE"):
+                        if is_cluster_const(None, val, "END_OF_FILE"):
                             return ("eof", f.loc(b))
                         return ("link", f.loc(b))
                 return None
@@ -927,9 +927,9 @@ def _fat_event_classifier(fn, extra=None):
             if call_matches(t, ("FatVolume::update_fat",)):
                 cl = f.term_of_operand(t["args"][2], b)
                 val = f.term_of_operand(t["args"][3], b)
-                if val[0] == "c" and val[2] and val[2].endswith("ClusterId::END_OF_FILE"):
+                if is_cluster_const(None, val, "END_OF_FILE"):
                     return ("fat", "EOF", tstr(cl), f.loc(b))
-                if val[0] == "c" and val[2] and val[2].endswith("ClusterId::EMPTY"):
+                if is_cluster_const(None, val, "EMPTY"):
                     return ("fat", "EMPTY", tstr(cl), f.loc(b))
                 return ("fat", "LINK", tstr(cl) + "->" + tstr(val), f.loc(b))
             if extra:
@@ -1173,7 +1173,11 @@ def fl1(F, R):
         R.require(b not in reach, fn, "dirty-implies-write", "flush can return Ok for a dirty file without writing its directory entry", fn.loc(b, i))
     fn2 = F.fn(FATVOL + "::write_entry_to_disk")
     rms = [(b, t) for b, t in fn2.calls() if call_matches(t, ("BlockCache::read_mut",))]
-    okr = len(rms) == 1 and tstr(fn2.term_of_operand(rms[0][1]["args"][1], rms[0][0])) == "(*entry).entry_block"
+    okr = False
+    if len(rms) == 1:
+        a_ = strip_refs(fn2.term_of_operand(rms[0][1]["args"][1], rms[0][0]))
+        # write_entry_to_disk(self, block_cache, entry): the block is the third parameter's entry_block
+        okr = a_[0] == "place" and strip_refs(a_[1])[:2] == ("arg", 3) and [e for e in a_[2] if isinstance(e, str) and e != "*"] == ["entry_block"]
     R.require(okr, fn2, "slot-block", "write_entry_to_disk must read_mut(entry.entry_block)", fn2.loc(0))
     cps = [(b, t) for b, t in fn2.calls() if (callee_of(t) or "").endswith("copy_from_slice")]
     okc = False
